@@ -243,6 +243,20 @@ def check_batch(chk, shape, pts, got, rng, name, V, F=None):
                                                   vertices=None if V is None else V.tolist(), faces=F, error=st))
 
 
+    # other input forms of the same points: nested python list, and - when the coordinates are integral - an integer array
+    sel = [int(k) for k in rng.integers(len(pts), size=min(4, len(pts)))]
+    st, asl = C.excname(lambda: np.asarray(shape.is_inside(pts[sel].tolist()), bool))
+    if st != "ok" or asl.shape != (len(sel),) or asl.tolist() != [bool(got[k]) for k in sel]:
+        chk.violation("input-form:list", dict(cls=name, points=pts[sel].tolist(), batch=[bool(got[k]) for k in sel], as_list=None if st != "ok" else asl.tolist(),
+                                              vertices=None if V is None else V.tolist(), faces=F, error=st))
+    ints = [k for k in range(len(pts)) if np.all(pts[k] == np.round(pts[k])) and np.all(np.abs(pts[k]) < 2 ** 31)][:4]
+    if ints:
+        st, asi = C.excname(lambda: np.asarray(shape.is_inside(pts[ints].astype(np.int64)), bool))
+        if st != "ok" or asi.tolist() != [bool(got[k]) for k in ints]:
+            chk.violation("input-form:integer-array", dict(cls=name, points=pts[ints].tolist(), batch=[bool(got[k]) for k in ints],
+                                                           as_int=None if st != "ok" else asi.tolist(), vertices=None if V is None else V.tolist(), faces=F, error=st))
+
+
 def extra_coverage(chk):
     return dict(vm_compute_crosschecks=chk.notes.get("vm_crosschecked", 0))
 
